@@ -148,3 +148,21 @@ def install(ex):
         return orig_cvm(recv, o, name, args, kwargs, st, node)
     ex.call_value_method = cvm
     ex.ev_ListComp = lambda e, st: listcomp(ex, e, st)
+    orig_binop = ex.binop
+
+    def binop(op, l, r, st, node):
+        """elementwise complex array +/- array (equal lengths: obligation) or +/- one complex value (broadcast)"""
+        lv, rv = st.deref(l), st.deref(r)
+        if isinstance(op, (ast.Add, ast.Sub)) and isinstance(lv, ListV) and lv.esort() == Cx and ((isinstance(rv, ListV) and rv.esort() == Cx) or (z3.is_expr(rv) and rv.sort() == Cx)):
+            j = fresh("bj", z3.IntSort())
+            a = z3.Select(lv.arr, lv.lo + j)
+            if isinstance(rv, ListV):
+                ex.oblige("exc-free", st, lv.length() == rv.length(), getattr(node, "lineno", 0), "ValueError: operands could not be broadcast together")
+                st.pc.append(lv.length() == rv.length())
+                b = z3.Select(rv.arr, rv.lo + j)
+            else:
+                b = rv
+            sgn = 1 if isinstance(op, ast.Add) else -1
+            return st.alloc(ListV(z3.Lambda([j], Cx.mk(Cx.re(a) + sgn * Cx.re(b), Cx.im(a) + sgn * Cx.im(b))), z3.IntVal(0), lv.length()))
+        return orig_binop(op, l, r, st, node)
+    ex.binop = binop
